@@ -30,7 +30,16 @@ def explore(ctx, which):
         except Exception:
             dist["load_rejected"] += 1
             continue
-        items, problems, capped, q = impl_next.full_stream(g, cap=ctx.scale(600, 3000))
+        replay = {"ruleset": rs, "skip_brute": sb, "skip_case": scs, "folder": folder}
+        try:
+            items, problems, capped, q = impl_next.full_stream(g, cap=ctx.scale(600, 3000))
+        except Exception as e:
+            # the implementation itself fails on a well-formed ruleset: nothing is emitted from here on
+            vio.append({"sig": "%s:raised:%s" % (which, type(e).__name__),
+                        "what": "PcfgQueue.next() raised %s: %s on a well-formed ruleset (the remaining pre-terminals are never emitted)" % (type(e).__name__, e),
+                        "replay": replay})
+            dist["raised"] = dist.get("raised", 0) + 1
+            continue
         if capped:
             dist["capped"] += 1
             continue
@@ -137,5 +146,8 @@ def replay(ctx, data):
     sc = common.scratch()
     g = impl_next.load_grammar(inp["ruleset"], sc, inp.get("skip_brute", False), inp.get("skip_case", False),
                                inp.get("folder", "Grammar"))
-    items, problems, capped, q = impl_next.full_stream(g, cap=100000)
+    try:
+        items, problems, capped, q = impl_next.full_stream(g, cap=100000)
+    except Exception as e:
+        return [{"sig": "%s:raised:%s" % (ctx.prop, type(e).__name__), "what": "PcfgQueue.next() raised %s: %s" % (type(e).__name__, e), "replay": inp}]
     return oracle(ctx.prop, g, items, problems, inp)
